@@ -88,4 +88,28 @@ crate::harnesses! {
     /// @timeout 1500
     #[cfg_attr(kani, kani::unwind(9))]
     fn tok_standard_alpha_len6() { tok_body!(lexical_util::format::STANDARD, 6, 1) }
+
+    /// long exponents: "1e" + optional sign + 21 symbolic digits: no overflow/panic, saturating exponent, count == len.
+    /// @prop C10 C01 C11
+    /// @feat default radix_format
+    /// @bound inputs of the shape 1e[+-]?[0-9]{21} (exponent digits symbolic)
+    /// @fn lexical-parse-float::parse::parse_number (exponent accumulation saturating at 0x10000000)
+    /// @timeout 1500
+    #[cfg_attr(kani, kani::unwind(26))]
+    fn tok_long_exponent() {
+        const F: u128 = lexical_util::format::STANDARD;
+        let ds: [u8; 21] = any();
+        let sign: u8 = any();
+        assume(sign <= 2);
+        let mut buf = [0u8; 24];
+        buf[0] = b'1'; buf[1] = b'e';
+        let mut n = 2;
+        if sign == 1 { buf[2] = b'+'; n = 3; } else if sign == 2 { buf[2] = b'-'; n = 3; }
+        let mut i = 0;
+        while i < 21 { assume(ds[i] >= b'0' && ds[i] <= b'9'); buf[n + i] = ds[i]; i += 1; }
+        let opts = Options::new();
+        let r = cmp_tok::<F>(&buf[..n + 21], &opts);
+        vcheck!(r.is_ok(), "long exponent: tokenizer == reference (saturating exponent), no panic");
+        cover(sign == 2);
+    }
 }
